@@ -73,6 +73,50 @@ def truth_points(lobes, sign):
     return pts
 
 
+def legs_open(psi, grad, x, poly, axis):
+    """do the separatrix branches leaving the X-point reach the wall?  Traced on the analytic psi with an independent integrator:
+    the two branches on the side away from the magnetic axis are the legs; the X-point is `open' when both leave the wall polygon"""
+    from scipy.integrate import solve_ivp
+
+    ang = np.linspace(0.0, 2 * np.pi, 1441)
+    rad = 0.01
+    rv, zv = x[0] + rad * np.cos(ang), x[1] + rad * np.sin(ang)
+    d = psi(rv, zv) - x[2]
+    idx = np.nonzero(d[1:] * d[:-1] < 0)[0]
+    if len(idx) != 4:
+        return None
+    # the legs are the two branches on the side of the X-point away from the magnetic axis
+    th0 = np.arctan2(x[1] - axis[1], x[0] - axis[0])
+    idx = [i for i in idx if abs((ang[i] - th0 + np.pi) % (2 * np.pi) - np.pi) < np.pi / 2]
+    if len(idx) != 2:
+        return None
+    exits = 0
+    for i in idx:
+        t = d[i] / (d[i] - d[i + 1])
+        p0 = np.array([rv[i] + t * (rv[i + 1] - rv[i]), zv[i] + t * (zv[i + 1] - zv[i])])
+        gR, gZ = grad(p0[0], p0[1])
+        tan = np.array([gZ, -gR]) / np.hypot(gR, gZ)
+        sg = 1.0 if tan @ (p0 - np.array(x[:2])) > 0 else -1.0
+
+        def rhs(s, y):
+            a, b = grad(y[0], y[1])
+            n = np.hypot(a, b)
+            return [sg * b / n, -sg * a / n]
+
+        def left(s, y):
+            return 1.0 if bool(O.poly_inside(poly, y[0], y[1])) else -1.0
+
+        def back(s, y):
+            return np.hypot(y[0] - x[0], y[1] - x[1]) - 0.5 * rad if s > 0.05 else 1.0
+
+        left.terminal = True
+        back.terminal = True
+        sol = solve_ivp(rhs, (0.0, 30.0), p0, events=[left, back], rtol=1e-8, atol=1e-10, max_step=0.02)
+        if sol.status == 1 and len(sol.t_events[0]) > 0:
+            exits += 1
+    return exits == 2
+
+
 def mono_metric(psi, o, x):
     rl, zl = np.linspace(o[0], x[0], 50), np.linspace(o[1], x[1], 50)
     pl = psi(rl, zl)
@@ -146,7 +190,11 @@ def run(c):
         pn = (p[2] - axis[2]) / (psi_bdry - axis[2])
         if abs(pn - c["psinorm_sol"]) < 2e-3:
             rec["skip"] = "X-point at psinorm_sol"
-        tx_recs.append({"R": int(round(p[0] / 1e-6)), "Z": int(round(p[1] / 1e-6)), "psi": int(round(p[2] / qpsi)), "mono": mono,
+        op = legs_open(psi, grad, p, poly, axis) if bool(O.poly_inside(poly, p[0], p[1])) else True
+        if op is None:
+            rec["skip"] = "separatrix branches at the X-point not resolved"
+            op = True
+        tx_recs.append({"open": int(op), "R": int(round(p[0] / 1e-6)), "Z": int(round(p[1] / 1e-6)), "psi": int(round(p[2] / qpsi)), "mono": mono,
                         "inwall": int(bool(O.poly_inside(poly, p[0], p[1]))), "insol": int(pn < c["psinorm_sol"]), "below": int(p[1] < axis[1]),
                         "psinorm": round(float(pn), 5)})
     rec["truth_x"] = tx_recs
